@@ -75,6 +75,14 @@ def systematic(fam, profile):
                                p(mid)]))
         out.append(("live", [("fit_other", 1, "weighted"), ("use_other", 0, 0), p(small), ("df", ("O", ix(fam, P + small)), 1),
                              ("mutate", "H", 1, 2), p(small)]))
+    if fam == "Hourly" and profile == "partial":
+        # order independence: one index, different / absent usage, months the baseline never saw
+        A, B, N = (("predict", ix(fam, n)) for n in ("H.rep_augnov", "H.rep_augnov_alt", "H.rep_augnov_noobs"))
+        return [("fitted", [A, N, B, A]), ("fitted", [N, A, B, N]), ("reloaded", [B, A, N]), ("live", [B, N, A]),
+                ("fitted", [p("1week"), A, ("to_json",), p("fullyear"), N, B])]
+    if profile == "default" and fam in ("Daily", "Billing", "Caltrack"):
+        out.append(("fitted", [p(mid + "_noobs"), p(mid), p(mid + "_noobs"), p(mid)]))
+        out.append(("reloaded", [p(mid), p(mid + "_noobs"), p(mid)]))
     if fam == "Hourly" and profile == "suppcat":
         f1, f2 = ("predict", ix(fam, "H.rep_1weekb_flag")), ("predict", ix(fam, "H.rep_1month_flag"))
         out.append(("fitted", [f1, f2, f1, ("to_json",), ("reload",), f2, f1]))
@@ -122,6 +130,8 @@ def random_history(rng, fam, profile, maxlen=9):
         preds = [i for i, nm in enumerate(names) if L.OBJ[nm]["ghi"]] * 3 + preds[:3]
     if fam == "Hourly" and profile == "suppcat":
         preds = [i for i, nm in enumerate(names) if nm.endswith("_flag")] * 3 + preds[:2]
+    if fam == "Hourly" and profile == "partial":
+        preds = [i for i, nm in enumerate(names) if "augnov" in nm] * 3 + preds[:4]
     for _ in range(n):
         x = rng.random()
         if x < 0.5:
